@@ -118,6 +118,7 @@ def site_kind(t):
 def rule_panic_sites(F, ev, R, config, rule="R-PANIC-SITES"):
     cn, edges = cone(F)
     counts = {}
+    dis = None
     inventory = {"explicit": 0, "sub": 0, "bounds": 0, "addmul": 0, "index": 0}
     for k in sorted(cn):
         b = F.bodies[k]
@@ -190,7 +191,17 @@ def rule_panic_sites(F, ev, R, config, rule="R-PANIC-SITES"):
             counts[ck] = counts.get(ck, 0) + 1
             if hit and counts[ck] <= hit[2]:
                 R.ok(rule, config, k, "%s#%d@reviewed" % (kind, counts[ck]), hit[3], t.get("span"))
-            else:
+                continue
+            # neither guarded in its own body nor reviewed: try to discharge it in every calling context
+            if dis is None:
+                import discharge
+                dis = discharge.Discharger(F, ev, cn)
+            okd, whyd = discharge_site(dis, b, bi, t, kind)
+            if okd:
+                counts[ck] -= 1
+                R.ok(rule, config, k, "%s@discharged" % kind, whyd, t.get("span"))
+                continue
+            if True:
                 what = callee_name(t) if t["k"] == "call" else t["msg"]["kind"]
                 R.bad(rule, config, k, "%s#%d" % (kind, counts[ck]),
                       "panic-capable site `%s` on the no-panic cone is neither dominated by a guard establishing its condition nor in the reviewed table%s"
@@ -198,6 +209,68 @@ def rule_panic_sites(F, ev, R, config, rule="R-PANIC-SITES"):
     R.notes.append(inventory)
     R.floor(rule, config, 80, "23 explicit + 2 Sub + 56 bounds checks + index calls (pinned tree)")
     return inventory
+
+
+def discharge_site(dis, b, bi, t, kind):
+    """(ok, why): the site cannot panic in any calling context (see discharge.py)"""
+    import tab
+    import discharge
+    ev = dis.ev
+    envs = dis.contexts(b.key)
+    whys = []
+    for env in envs:
+        body = env.body
+        if bi >= len(body.blocks) or bi not in body.live_blocks():
+            continue   # pruned in this specialised instance: unreachable there
+        tt = body.blocks[bi]["term"]
+        cn = tab.Canon(ev)
+        try:
+            if kind == "index-call":
+                args = [ev.operand(env, a, (bi, None)) for a in tt["args"]]
+                acc = cn.canon(("call", callee_id(tt["fn"]), None, tuple(args), None))
+                if acc[0] != "at":
+                    return False, ""
+                idx = acc[2:]
+                dims = dis.dims_of(cn, acc[1], len(idx))
+                facts = dis.facts(cn, body, env, bi)
+                if len(dims) != len(idx) or not all(dis.idx_below(cn, i, d, facts) for i, d in zip(idx, dims)):
+                    return False, ""
+                whys.append("%s within %s" % (", ".join(short(i)[:30] for i in idx), ", ".join(short(d)[:40] for d in dims)))
+            elif kind == "bounds-check":
+                m = tt["msg"]
+                idx = ev.operand(env, m["index"], (bi, None))
+                ln = ev.operand(env, m["len"], (bi, None))
+                ci, cl = cn.canon(idx), cn.canon(ln)
+                if ci[0] == "const" and cl[0] == "const" and isinstance(ci[2], int) and isinstance(cl[2], int) and ci[2] < cl[2]:
+                    whys.append("constant index %d < constant length %d" % (ci[2], cl[2]))
+                    continue
+                facts = dis.facts(cn, body, env, bi)
+                if not dis.idx_below(cn, idx, ln, facts):
+                    return False, ""
+                whys.append("%s < %s" % (short(ci)[:30], short(cl)[:40]))
+            elif tt["k"] == "call" and tt.get("t") is None or kind in ("panic", "panic_fmt", "assert_failed", "panic_explicit", "unreachable_display"):
+                # an explicit panic: reached only under conditions the facts refute
+                g = Guards(ev, body, env)
+                rels, raw = g.relations_at(bi)
+                facts = [f for f in dis.facts(cn, body, env, bi)]
+                # the facts used for refutation must not include the very conditions that lead here: invariants and
+                # facts of the callers only, plus conditions of OTHER dominating tests
+                inv = dis.invariants(cn, env)
+                okr = False
+                for term, truth, sw in raw:
+                    if isinstance(truth, bool) and discharge.refuted(cn, term, truth, inv):
+                        okr = True
+                        whys.append("its condition `%s` is excluded by a type invariant" % short(term)[:60])
+                        break
+                if not okr:
+                    return False, ""
+            else:
+                return False, ""
+        except RecursionError:
+            return False, ""
+    if not whys:
+        return False, ""
+    return True, "; ".join(sorted(set(whys)))[:300]
 
 
 FINITE_SOURCES = ("core::slice::iter", "core::slice::iter_mut", "nalgebra::Matrix::iter", "nalgebra::Matrix::iter_mut", "nalgebra::Matrix::column_iter",
